@@ -18,11 +18,12 @@ scanner written from the documented template syntax.
 """
 import itertools
 import re
+import unicodedata
 
 MAX_LEN = 400
 MAX_BLOCK_DEPTH = 15  # excluded when measured block nesting >= this
 MAX_EXPR_DEPTH = 30  # excluded when bracket depth + unary run >= this
-MAX_CHAIN = 100  # excluded when one tag holds >= this many operator tokens
+MAX_CHAIN = 40  # excluded when one tag holds >= this many nesting-capable operator tokens
 MAX_FOR_WORDS = 15  # conservative whole-source guard against CPython's 20 static blocks
 
 # ---------------------------------------------------------------------------------------
@@ -113,6 +114,7 @@ _EXPR_TOK_RE = re.compile(
 )
 _BLOCK_OPENERS = {"for", "if", "macro", "call", "filter", "block", "with", "autoescape", "trans", "set", "raw"}
 _WORD_OPS = {"and", "or", "not", "in", "is", "if", "else"}
+_FLAT_OPS = {",", ":", "=", ";", ")", "]", "}"}  # tokens that do not deepen the expression tree
 _FOR_RE = re.compile(r"(?<![^\W\d])for(?!\w)")
 
 
@@ -147,9 +149,30 @@ def magnitudes(src):
     return big, longest
 
 
+_ROOT_RE = {}
+
+
+def _root_re(env):
+    r = _ROOT_RE.get(env)
+    if r is None:
+        d = delims(env)
+        alts = [("b", d.bs), ("v", d.vs), ("c", d.cs)]
+        alts.sort(key=lambda kv: -len(kv[1]))
+        parts = ["(?P<%s>%s)" % (k, re.escape(v)) for k, v in alts]
+        if d.lc:
+            parts.insert(0, r"(?P<lc>^[ \t\v\f]*%s)" % re.escape(d.lc))
+        if d.ls:
+            parts.insert(1 if d.lc else 0, r"(?P<ls>^[ \t\v\f]*%s)" % re.escape(d.ls))
+        r = _ROOT_RE[env] = (re.compile("|".join(parts), re.M), re.compile(re.escape(d.bs) + r"[-+]?\s*endraw"))
+    return r
+
+
 def measure(src, env):
     """Harness-side measures of a source string under configuration ``env``."""
     d = delims(env)
+    orig = src
+    if "\r" in src:
+        src = _LINEBREAK_RE.sub("\n", src)
     n = len(src)
     pos = 0
     stack_depth = 0
@@ -157,15 +180,7 @@ def measure(src, env):
     max_expr = 0
     max_chain = 0
     ntags = 0
-    # root-level search pattern
-    alts = [("b", d.bs), ("v", d.vs), ("c", d.cs)]
-    alts.sort(key=lambda kv: -len(kv[1]))
-    parts = ["(?P<%s>%s)" % (k, re.escape(v)) for k, v in alts]
-    if d.lc:
-        parts.insert(0, r"(?P<lc>^[ \t\v]*%s)" % re.escape(d.lc))
-    if d.ls:
-        parts.insert(1 if d.lc else 0, r"(?P<ls>^[ \t\v]*%s)" % re.escape(d.ls))
-    root_re = re.compile("|".join(parts), re.M)
+    root_re, endraw_re = _root_re(env)
     end_block, end_var = d.be, d.ve
 
     def scan_tag(pos, end, line):
@@ -202,7 +217,8 @@ def measure(src, env):
             elif kind == "op":
                 if first is None:
                     first = ""
-                ops += 1
+                if text not in _FLAT_OPS:
+                    ops += 1
                 if text in "([{":
                     bal += 1
                     maxbal = max(maxbal, bal)
@@ -243,7 +259,7 @@ def measure(src, env):
         max_chain = max(max_chain, ops)
         if kind in ("b", "ls"):
             if first == "raw":
-                e = re.compile(re.escape(d.bs) + r"[-+]?\s*endraw").search(src, pos)
+                e = endraw_re.search(src, pos)
                 if e is None:
                     pos = n
                 else:
@@ -254,9 +270,10 @@ def measure(src, env):
                 max_block = max(max_block, stack_depth)
             elif first and first.startswith("end") and stack_depth:
                 stack_depth -= 1
+    src = orig
     big, longest = magnitudes(src)
     return {
-        "len": n,
+        "len": len(src),
         "block": max_block,
         "expr": max_expr,
         "chain": max_chain,
@@ -266,6 +283,8 @@ def measure(src, env):
         "stars": src.count("*"),
         "pow": "**" in src,
         "tags": ntags,
+        "nfkc": src.isascii() or unicodedata.is_normalized("NFKC", src),
+        "surrogate": any("\ud800" <= ch <= "\udfff" for ch in src) if not src.isascii() else False,
     }
 
 
@@ -273,6 +292,10 @@ def excluded_reason(m):
     """Why the measured input is outside the domain C01 decides (None = inside)."""
     if m["len"] > MAX_LEN:
         return "length"
+    if m["surrogate"]:
+        return "not_unicode"  # lone surrogates are not Unicode text
+    if not m["nfkc"]:
+        return "nfkc_ident"  # F34/F1: Python NFKC-normalises identifiers of the generated code
     if m["block"] >= MAX_BLOCK_DEPTH or m["fors"] >= MAX_FOR_WORDS:
         return "block_depth"  # F2: CPython's static nesting limits
     if m["expr"] >= MAX_EXPR_DEPTH or m["chain"] >= MAX_CHAIN:
@@ -320,3 +343,1258 @@ def tokenize_flat(src, env):
     if r is None:
         r = _FLAT_CACHE[env] = _flat_re(env)
     return r.findall(src)
+
+
+# ---------------------------------------------------------------------------------------
+# stream 2: grammar-based template sources (Hypothesis strategy)
+
+SIMPLE_IDENTS = ["x", "y", "a", "b", "item", "foo", "bar", "n", "key", "seq", "user", "m", "f"]
+TROUBLE_IDENTS = [
+    # Python keywords that are ordinary names in templates
+    "class", "def", "lambda", "return", "yield", "while", "try", "except", "finally", "raise", "global", "nonlocal",
+    "del", "pass", "assert", "async", "await", "with", "import", "from", "as", "match", "case", "type", "print", "exec",
+    "None", "True", "False", "none", "true", "false",
+    # dunder / debug names
+    "__debug__", "__class__", "__init__", "__name__", "__builtins__", "__import__", "__dict__", "_", "__", "___",
+    # names the generated code uses itself
+    "context", "environment", "resolve", "missing", "caller", "_loop_vars", "_block_vars", "t_1", "t_2", "t_3",
+    "l_0_x", "l_1_x", "l_1_loop", "l_0_loop", "gen", "template", "name", "blocks", "debug_info", "root", "self", "super",
+    "loop", "varargs", "kwargs", "undefined", "escape", "markup_join", "str_join", "Markup", "concat", "str",
+    "cond_expr_undefined", "parent_template", "included_template", "event", "rv", "reciter", "loop_render_func",
+    "depth", "macro", "fiter", "eval_ctx", "resolve_or_missing", "TemplateRuntimeError", "Namespace", "LoopContext",
+    "Macro", "identity", "auto_await", "auto_aiter", "exported", "exported_names", "block_b", "block_x", "Undefined",
+    "TemplateNotFound", "dict", "range", "namespace", "cycler", "joiner", "lipsum", "_get_default_module", "agen",
+    # non-ASCII (NFKC-stable) and unusual but valid identifiers
+    "é", "naïve", "переменная", "变量", "x1", "_x", "X", "x_", "ß", "Ω",
+]
+FILTERS = [
+    "e", "upper", "lower", "trim", "default", "d", "length", "join", "list", "first", "last", "int", "float", "string",
+    "safe", "escape", "abs", "attr", "batch", "capitalize", "center", "count", "dictsort", "filesizeformat",
+    "forceescape", "format", "groupby", "indent", "items", "map", "max", "min", "pprint", "random", "reject",
+    "rejectattr", "replace", "reverse", "round", "select", "selectattr", "slice", "sort", "striptags", "sum", "title",
+    "tojson", "truncate", "unique", "urlencode", "urlize", "wordcount", "wordwrap", "xmlattr",
+]
+TESTS = [
+    "defined", "undefined", "none", "odd", "even", "string", "number", "mapping", "sequence", "iterable", "callable",
+    "boolean", "false", "true", "integer", "float", "lower", "upper", "escaped", "divisibleby", "eq", "equalto", "ne",
+    "gt", "ge", "lt", "le", "greaterthan", "lessthan", "sameas", "in", "filter", "test",
+]
+STRINGS = [
+    '"a"', "'b'", '""', "''", '"a b"', "'it\\'s'", '"q\\"q"', '"\\n"', "'\\x41'", '"\\u00e9"', '"\\N{BULLET}"', '"é"',
+    "'{{'", '"%}"', "'#}'", '"\\\\"', "'a\\tb'", '"layout.html"', "'%s-%s'", '"%(a)s"', '"<b>"', "'\\q'", '"x\\\ny"',
+    '"}"', "'${'", '"-->"',
+]
+TEMPLATE_NAMES = ['"a"', "'b.html'", '"layout"', "name", "[\"a\", 'b']", '("a", "b")', "x.y", '"a" ~ x']
+NUMBERS = ["0", "1", "2", "3", "7", "10", "42", "99", "1.5", "0.0", "2.5e1", "1e1", "0x1f", "0o7", "0b11", "1_0", "00", "1E1", "9_8.0_1"]
+SMALL_NUMBERS = ["0", "1", "2", "3", "7", "1.5", "0x7", "0b11", "0o7", "00"]
+DATA = [
+    "text", " ", "  ", "\n", "\r\n", "\r", "\n\n", "<p>", "</p>", "é", "x y", "{", "}", "%", "$", "<", ">", "-", "+",
+    "'", '"', "\\", "\t", "a#b", "100%", " # x", "##", "#", "{ {", "}}", "%}", "#}", "<!-", "->", "$ {", ":", "line\n",
+    "\n  ", "  \n", " ", "\x0b", "\x0c", "\x85", "\x00", "﻿", "endraw", "raw", "a.b", "(", "]",
+]
+BINOPS = ["+", "-", "/", "//", "%", "~", "and", "or", "==", "!=", "<", ">", "<=", ">=", "in", "not in"]
+
+class _Gen:
+    """Recursive-descent *printer* driven by a byte string: every decision consumes one byte
+    (0 = the simplest alternative; an exhausted string answers 0 forever, which terminates every
+    production), so Hypothesis shrinks towards plain templates and the same builder serves the
+    coverage-guided target."""
+
+    def __init__(self, data, env):
+        self.buf = data
+        self.i = 0
+        self.n = len(data)
+        self.env = env
+        self.d = delims(env)
+        self.budget = 16 + self.c(40)
+        self.pow_mode = self.c(6) == 5
+        self.stars = 0
+        self.seen = []  # identifiers used so far (re-used to provoke duplicates / shadowing)
+        self.line_ok = self.d.ls is not None
+        self.blocknames = 0
+
+    # -- primitive choices -------------------------------------------------------------
+    def c(self, n):
+        i = self.i
+        if n <= 1 or i >= self.n:
+            return 0
+        self.i = i + 1
+        return self.buf[i] % n
+
+    def p(self, num, den):
+        return self.c(den) >= den - num  # rare alternative = high draw
+
+    def pick(self, seq):
+        return seq[self.c(len(seq))]
+
+    def sp(self):
+        return ("", " ", " ", "  ", "\t", "\n")[self.c(6)] if self.p(1, 4) else " "
+
+    def ident(self):
+        k = self.c(8)
+        if k < 4:
+            v = self.pick(SIMPLE_IDENTS)
+        elif k < 6 and self.seen:
+            v = self.pick(self.seen)
+        else:
+            v = self.pick(TROUBLE_IDENTS)
+        if len(self.seen) < 12:
+            self.seen.append(v)
+        return v
+
+    def number(self):
+        return self.pick(SMALL_NUMBERS if self.pow_mode else NUMBERS)
+
+    # -- expressions -------------------------------------------------------------------
+    def atom(self):
+        k = self.c(10)
+        if k < 4:
+            return self.ident()
+        if k < 6:
+            return self.number()
+        if k < 8:
+            return self.pick(STRINGS)
+        return self.pick(["true", "false", "none", "True", "False", "None", "loop.index", "loop", "self", "super()", "caller()", "varargs", "kwargs", "loop.cycle(1, 2)", "_('x')", "gettext('a')", "ngettext('a', 'b', n)"])
+
+    def args(self, depth):
+        out = []
+        for _ in range(self.c(4)):
+            out.append(self.expr(depth + 1))
+        for _ in range(self.c(3)):
+            out.append("%s%s=%s%s" % (self.ident(), self.pick(["", "", " "]), self.pick(["", "", " "]), self.expr(depth + 1)))
+        if self.p(1, 8) and self.stars + 1 <= 2 and not self.pow_mode:
+            self.stars += 1
+            out.append("*" + self.ident())
+        if self.p(1, 8) and self.stars == 0 and self.pow_mode:
+            self.stars += 2
+            out.append("**" + self.ident())
+        if self.p(1, 10) and len(out) > 1:
+            out.append(out[self.c(len(out))])  # duplicate argument (a duplicate keyword when it is one)
+        sep = self.pick([", ", ", ", ","])
+        return sep.join(out) + (self.pick(["", "", ","]) if out else "")
+
+    def filter(self, depth):
+        name = self.pick(FILTERS) if not self.p(1, 10) else self.ident()
+        if self.p(1, 3):
+            return "|%s(%s)" % (name, self.args(depth))
+        return "|" + name
+
+    def test(self, depth):
+        name = self.pick(TESTS) if not self.p(1, 10) else self.ident()
+        neg = " is not " if self.p(1, 3) else " is "
+        k = self.c(4)
+        if k < 2:
+            return neg + name
+        if k == 2:
+            return neg + name + " " + self.atom()
+        return neg + "%s(%s)" % (name, self.args(depth))
+
+    def postfixed(self, depth):
+        s = self.atom()
+        for _ in range(self.c(4)):  # attribute / subscript / call
+            k = self.c(7)
+            if k < 2:
+                s += "." + self.ident()
+            elif k == 2:
+                s += "." + self.pick(["0", "1", "10"])
+            elif k == 3:
+                s += "[%s]" % self.expr(depth + 1)
+            elif k == 4:
+                s += "[%s:%s%s]" % (
+                    self.expr(depth + 1) if self.p(1, 2) else "",
+                    self.expr(depth + 1) if self.p(1, 2) else "",
+                    (":" + (self.expr(depth + 1) if self.p(1, 2) else "")) if self.p(1, 3) else "",
+                )
+            else:
+                s += "(%s)" % self.args(depth)
+        for _ in range(self.c(3)):
+            s += self.filter(depth)
+        if self.p(1, 5):
+            s += self.test(depth)
+        return s
+
+    def expr(self, depth=0, top=False):
+        self.budget -= 1
+        if depth > 3 or self.budget <= 0:
+            return self.atom()
+        k = self.c(16)
+        if k < 5:
+            return self.atom()
+        if k < 8:
+            return self.postfixed(depth)
+        if k == 8:
+            op = self.pick(BINOPS)
+            if self.p(1, 6) and not self.pow_mode and self.stars < 2:
+                self.stars += 1
+                op = "*"
+            elif self.p(1, 6) and self.pow_mode and self.stars == 0:
+                self.stars += 2
+                op = "**"
+            s1, s2 = self.sp(), self.sp()
+            if op.isalpha() or " " in op:
+                s1, s2 = s1 or " ", s2 or " "
+            return "%s%s%s%s%s" % (self.expr(depth + 1), s1, op, s2, self.expr(depth + 1))
+        if k == 9:
+            return self.pick(["-", "+", "not ", "- ", "not not ", "-+"]) + self.expr(depth + 1)
+        if k == 10:
+            if self.p(1, 3):
+                e = "%s if %s" % (self.expr(depth + 1), self.expr(depth + 1))
+            else:
+                e = "%s if %s else %s" % (self.expr(depth + 1), self.expr(depth + 1), self.expr(depth + 1))
+            return e if top or self.p(1, 8) else "(%s)" % e
+        if k == 11:
+            return "%s(%s)" % (self.ident(), self.args(depth))
+        if k == 12:
+            items = [self.expr(depth + 1) for _ in range(self.c(4))]
+            br = self.c(3)
+            if br == 0:
+                return "[%s]" % ", ".join(items)
+            if br == 1:
+                return "(%s%s)" % (", ".join(items), "," if len(items) == 1 else "")
+            return "{%s}" % ", ".join("%s: %s" % (self.expr(depth + 1), it) for it in items)
+        if k == 13:
+            return "(%s)" % self.expr(depth + 1)
+        if k == 14:
+            return "%s %s %s %s %s" % (self.expr(depth + 1), self.pick(["<", "<=", "==", "!=", ">", ">="]), self.expr(depth + 1), self.pick(["<", "==", "in", "not in"]), self.expr(depth + 1))
+        return "%s ~ %s" % (self.expr(depth + 1), self.expr(depth + 1))
+
+    def target(self):
+        k = self.c(8)
+        if k < 5:
+            return self.ident()
+        if k == 5:
+            return "%s, %s" % (self.ident(), self.ident())
+        if k == 6:
+            return "(%s, %s)" % (self.ident(), self.ident())
+        return "%s, (%s, %s)" % (self.ident(), self.ident(), self.ident())
+
+    def params(self):
+        out = []
+        for _ in range(self.c(4)):
+            out.append(self.ident())
+        for _ in range(self.c(3)):
+            out.append("%s=%s" % (self.ident(), self.expr(3)))
+        if self.p(1, 10) and out:
+            out.append(out[self.c(len(out))])
+        return ", ".join(out)
+
+    # -- tags --------------------------------------------------------------------------
+    def tag(self, content, out):
+        d = self.d
+        if self.line_ok and self.p(1, 3) and "\n" not in content and "\r" not in content:
+            cur = "".join(out[-1:])
+            if out and not cur.endswith(("\n", "\r")):
+                out.append(self.pick(["\n", "\n", "\r\n", "\r"]))
+            out.append(self.pick(["", "", " ", "\t"]) + d.ls + self.pick([" ", " ", ""]) + content + self.pick(["", "", ":", " "]) + self.pick(["\n", "\n", "\r\n", "\r"]))
+            return
+        lsign = self.pick(["-", "+"]) if self.p(1, 6) else ""
+        rsign = self.pick(["-", "+"]) if self.p(1, 6) else ""
+        out.append("%s%s%s%s%s%s%s" % (d.bs, lsign, self.sp(), content, self.sp(), rsign, d.be))
+
+    def output(self, out):
+        d = self.d
+        lsign = "-" if self.p(1, 8) else ""
+        rsign = "-" if self.p(1, 8) else ""
+        e = self.expr(0, top=True)
+        if d.ve == "}" and e.endswith("}"):
+            e += " "
+        out.append("%s%s%s%s%s%s%s" % (d.vs, lsign, self.sp(), e, self.sp(), rsign, d.ve))
+
+    def data(self, out):
+        for _ in range(1 + self.c(3)):
+            out.append(self.pick(DATA))
+
+    def body(self, depth, out):
+        for _ in range(self.c(4)):
+            self.stmt(depth, out)
+
+    def stmt(self, depth, out):
+        self.budget -= 1
+        leaf = depth >= 4 or self.budget <= 0
+        k = self.c(30)
+        if k < 4:
+            return self.data(out)
+        if k < 9:
+            return self.output(out)
+        if k == 9:
+            return self.tag("set %s = %s" % (self.target() if self.p(1, 2) else (self.ident() + "." + self.ident() if self.p(1, 4) else self.ident()), self.expr(1)), out)
+        if k == 10:
+            inc = "include " + self.pick(TEMPLATE_NAMES)
+            if self.p(1, 3):
+                inc += " ignore missing"
+            if self.p(1, 3):
+                inc += self.pick([" with context", " without context"])
+            return self.tag(inc, out)
+        if k == 11:
+            if self.p(1, 2):
+                return self.tag("import %s as %s%s" % (self.pick(TEMPLATE_NAMES), self.ident(), self.pick(["", "", " with context", " without context"])), out)
+            names = ", ".join(self.ident() + ((" as " + self.ident()) if self.p(1, 3) else "") for _ in range(1 + self.c(3)))
+            return self.tag("from %s import %s%s" % (self.pick(TEMPLATE_NAMES), names, self.pick(["", "", " with context", ","])), out)
+        if k == 12:
+            d = self.d
+            return out.append(d.cs + self.pick(["", "-", "+"]) + self.pick([" c ", "", " {{ x }} ", "\n", " %} ", "{% if %}", "é", " # "]) + self.pick(["", "-", "+"]) + d.ce)
+        if k == 13:
+            d = self.d
+            inner = self.pick(["", " ", "{{ x }}", "{% if %}", "{#", "text", "\n", d.vs + " y " + d.ve, d.bs + " endfor " + d.be, d.cs])
+            self.tag("raw", out)
+            out.append(inner)
+            return self.tag("endraw", out)
+        if k == 14:
+            if self.env == "ext" or self.p(1, 8):
+                kk = self.c(6)
+                if kk == 0:
+                    return self.tag("do " + self.expr(1), out)
+                if kk == 1:
+                    return self.tag("debug", out)
+                if kk == 2:
+                    return self.tag(self.pick(["break", "continue"]), out)
+                tr = "trans"
+                if self.p(1, 2):
+                    tr += " " + ", ".join("%s=%s" % (self.ident(), self.expr(2)) for _ in range(1 + self.c(2)))
+                if self.p(1, 4):
+                    tr += self.pick([" trimmed", " notrimmed"])
+                self.tag(tr, out)
+                out.append(self.pick(["Hello", "%", "%(x)s", "a  b\n c", "{{ x }}", self.d.vs + " " + self.ident() + " " + self.d.ve, "100%%"]))
+                if self.p(1, 3):
+                    self.tag("pluralize" + (" " + self.ident() if self.p(1, 2) else ""), out)
+                    out.append(self.pick(["many", self.d.vs + " n " + self.d.ve, "%"]))
+                return self.tag("endtrans", out)
+            return self.output(out)
+        if k == 15 and depth == 0:
+            return self.tag("extends " + self.pick(TEMPLATE_NAMES), out)
+        if leaf:
+            return self.output(out)
+        if k < 19:
+            t = "for %s in %s" % (self.target(), self.expr(1))
+            if self.p(1, 4):
+                t += " if " + self.expr(1)
+            if self.p(1, 6):
+                t += " recursive"
+            self.tag(t, out)
+            self.body(depth + 1, out)
+            if self.p(1, 8):
+                out.append(self.d.vs + " loop(" + self.ident() + ") " + self.d.ve)
+            if self.env == "ext" and self.p(1, 6):
+                self.tag(self.pick(["break", "continue"]), out)
+            if self.p(1, 4):
+                self.tag("else", out)
+                self.body(depth + 1, out)
+            return self.tag("endfor", out)
+        if k < 22:
+            self.tag("if " + self.expr(1), out)
+            self.body(depth + 1, out)
+            for _ in range(self.c(3) if self.p(1, 3) else 0):
+                self.tag("elif " + self.expr(1), out)
+                self.body(depth + 1, out)
+            if self.p(1, 3):
+                self.tag("else", out)
+                self.body(depth + 1, out)
+            return self.tag("endif", out)
+        if k == 22:
+            name = self.ident()
+            self.tag("macro %s(%s)" % (name, self.params()), out)
+            self.body(depth + 1, out)
+            return self.tag("endmacro", out)
+        if k == 23:
+            t = "call"
+            if self.p(1, 3):
+                t += "(%s)" % self.params()
+            t += " %s(%s)" % (self.ident() + (("." + self.ident()) if self.p(1, 4) else ""), self.args(1))
+            self.tag(t, out)
+            self.body(depth + 1, out)
+            return self.tag("endcall", out)
+        if k == 24:
+            f = self.pick(FILTERS) if not self.p(1, 8) else self.ident()
+            if self.p(1, 3):
+                f += "(%s)" % self.args(1)
+            if self.p(1, 3):
+                f += "|" + self.pick(FILTERS)
+            self.tag("filter " + f, out)
+            self.body(depth + 1, out)
+            return self.tag("endfilter", out)
+        if k == 25:
+            self.blocknames += 1
+            name = self.pick(["b%d" % self.blocknames, "b%d" % self.blocknames, "b%d" % self.blocknames, self.ident(), "b1"])
+            t = "block " + name
+            if self.p(1, 4):
+                t += " scoped"
+            if self.p(1, 10):
+                t += " required"
+            self.tag(t, out)
+            self.body(depth + 1, out)
+            if self.p(1, 6):
+                out.append(self.d.vs + " super() " + self.d.ve)
+            return self.tag("endblock" + ((" " + name) if self.p(1, 3) else ""), out)
+        if k == 26:
+            self.tag("with " + ", ".join("%s=%s" % (self.ident(), self.expr(2)) for _ in range(self.c(3))), out)
+            self.body(depth + 1, out)
+            return self.tag("endwith", out)
+        if k == 27:
+            self.tag("autoescape " + self.pick(["true", "false", "x", "none", "1"]), out)
+            self.body(depth + 1, out)
+            return self.tag("endautoescape", out)
+        if k == 28:
+            t = "set " + self.ident()
+            if self.p(1, 3):
+                t += " | " + self.pick(FILTERS)
+            self.tag(t, out)
+            self.body(depth + 1, out)
+            return self.tag("endset", out)
+        if depth == 0 and self.p(1, 3):
+            return self.deep(out)
+        return self.output(out)
+
+    # -- nesting close to (but under) the measured bounds --------------------------------
+    def deep(self, out):
+        d = self.d
+        k = self.c(8)
+        if k == 0:
+            n = 8 + self.c(MAX_BLOCK_DEPTH - 8)  # up to 14 nested blocks of mixed kinds
+            kinds = [("for x in y", "endfor"), ("if x", "endif"), ("with", "endwith"), ("filter e", "endfilter"),
+                     ("macro m()", "endmacro"), ("call m()", "endcall"), ("set z", "endset"), ("autoescape 1", "endautoescape")]
+            if self.p(1, 2):
+                kinds = kinds[:1] * 8
+            chosen = [self.pick(kinds) for _ in range(n)]
+            s = "".join(d.bs + o + d.be for o, _ in chosen)
+            s += self.pick(["", d.vs + "x" + d.ve, d.bs + "include 'a'" + d.be])
+            s += "".join(d.bs + c + d.be for _, c in reversed(chosen))
+            out.append(s)
+            return
+        n = 12 + self.c(MAX_EXPR_DEPTH - 13)  # up to 28
+        x = self.pick(["x", "1", "'a'"])
+        if k == 1:
+            e = "(" * n + x + ")" * n
+        elif k == 2:
+            e = "[" * n + x + "]" * n
+        elif k == 3:
+            n = min(n, 12)
+            e = "{1:" * n + x + "}" * n + " "
+        elif k == 4:
+            e = self.pick(["-", "+", "not ", "- "]) * n + x
+        elif k == 5:
+            n = min(n, 19)
+            e = "f(" * n + x + ")" * n
+        elif k == 6:
+            e = x + "".join(self.pick([".a", "|e", "()", "[0]", "+x", "~x", " and x", "|d(1)"]) for _ in range(min(n, 19)))
+        else:
+            e = x + " if x else x" * min(n, 12)
+        out.append(d.vs + " " + e + " " + d.ve)
+
+
+def build_template(data, env):
+    """bytes -> template source (<= 400 characters) for configuration ``env``; pure."""
+    g = _Gen(data, env)
+    parts = []
+    total = 0
+    for _ in range(1 + g.c(6)):
+        out = []
+        g.stmt(0, out)
+        s = "".join(out)
+        if total + len(s) > MAX_LEN:
+            continue  # drop a whole top-level statement rather than cutting one in the middle
+        parts.append(s)
+        total += len(s)
+    return "".join(parts)
+
+
+def templates(env):
+    """Strategy for grammar-generated template sources of configuration ``env`` (<= 400 characters)."""
+    from hypothesis import strategies as st
+
+    return st.binary(min_size=24, max_size=480).map(lambda b: build_template(b, env))
+
+
+# ---------------------------------------------------------------------------------------
+# stream 3: token-level mutation
+
+_OTHER_DELIMS = ["{%", "%}", "{{", "}}", "{#", "#}", "<%", "%>", "${", "<!--", "-->", "#", "##", "{%-", "-%}", "{{-", "-}}", "{%+", "+%}", "{#-", "-#}"]
+INJECT = _OTHER_DELIMS + [
+    "-", "+", "'", '"', "(", ")", "[", "]", "{", "}", "\r", "\n", "\r\n", " ", "\\", ",", ":", "=", "|", ".", "~", "*", "/", "%",
+    "!", ";", "<", ">", "==", "!=", "if", "else", "elif", "endif", "for", "in", "endfor", "is", "not", "and", "or", "set",
+    "endset", "block", "endblock", "macro", "endmacro", "call", "endcall", "filter", "endfilter", "raw", "endraw", "with",
+    "endwith", "include", "import", "from", "as", "extends", "autoescape", "endautoescape", "trans", "endtrans", "pluralize",
+    "do", "break", "continue", "debug", "recursive", "scoped", "required", "ignore", "missing", "context", "without",
+    "0x", "1.", "1e", "0b1", "1_0", "09", "1__0", "0_", ".5", "1.e1", "0X1F", "1j", "\x00", " ", "\x85", "﻿", "é",
+    "\x0b", "\x0c", "\t", "\\N{", "\\x", "\\u12", "'''", '"""', "@", "$", "`", "?", "^", "&", "<<", "**", "//", "->", ":=",
+]
+
+
+def mutate(src, other, ops, env):
+    """Apply token-level edit operations (tuples of small ints) to ``src``; pure function."""
+    toks = tokenize_flat(src, env)
+    d = delims(env)
+    for kind, i, j, k in ops:
+        n = len(toks)
+        if n == 0:
+            toks = [INJECT[k % len(INJECT)]]
+            continue
+        i %= n
+        j %= n
+        if kind == 0:  # delete
+            del toks[i]
+        elif kind == 1:  # duplicate
+            toks.insert(i, toks[i])
+        elif kind == 2:  # swap
+            toks[i], toks[j] = toks[j], toks[i]
+        elif kind == 3:  # replace
+            toks[i] = INJECT[k % len(INJECT)]
+        elif kind == 4:  # insert
+            toks.insert(i, INJECT[k % len(INJECT)])
+        elif kind == 5:  # splice with another template
+            o = tokenize_flat(other, env)
+            toks = toks[:i] + o[(j % len(o)) if o else 0:]
+        elif kind == 6:  # unbalance a bracket
+            idx = [t for t in range(n) if toks[t] in ("(", ")", "[", "]", "{", "}")]
+            if idx:
+                t = idx[k % len(idx)]
+                if j % 2:
+                    del toks[t]
+                else:
+                    toks[t] = "()[]{}"[(k // 7) % 6]
+            else:
+                toks.insert(i, "()[]{}"[k % 6])
+        elif kind == 7:  # change string quotes
+            idx = [t for t in range(n) if len(toks[t]) >= 2 and toks[t][0] in "'\"" and toks[t][-1] == toks[t][0]]
+            if idx:
+                t = idx[k % len(idx)]
+                s = toks[t]
+                q = '"' if s[0] == "'" else "'"
+                toks[t] = (q + s[1:], s[:-1] + q, q + s[1:-1] + q, s[:-1], s[1:])[j % 5]
+            else:
+                toks.insert(i, "'\""[k % 2])
+        elif kind == 8:  # carriage returns
+            idx = [t for t in range(n) if toks[t] == "\n"]
+            if idx and j % 2:
+                toks[idx[k % len(idx)]] = ("\r\n", "\r")[k % 2]
+            else:
+                toks.insert(i, "\r")
+        elif kind == 9:  # delete a short range
+            del toks[i:i + 1 + k % 5]
+        elif kind == 10:  # trouble identifier
+            idx = [t for t in range(n) if toks[t][:1].isalpha() or toks[t][:1] == "_"]
+            name = TROUBLE_IDENTS[k % len(TROUBLE_IDENTS)]
+            if idx:
+                toks[idx[j % len(idx)]] = name
+            else:
+                toks.insert(i, name)
+        elif kind == 11:  # number spelling
+            idx = [t for t in range(n) if toks[t][:1].isdigit()]
+            num = NUMBERS[k % len(NUMBERS)]
+            if idx:
+                toks[idx[j % len(idx)]] = num
+            else:
+                toks.insert(i, num)
+        elif kind == 12:  # duplicate a short range
+            seg = toks[i:i + 1 + k % 4]
+            toks[i:i] = seg
+        elif kind == 13:  # stray delimiter of this configuration
+            toks.insert(i, d.all()[k % len(d.all())])
+        elif kind == 14:  # split a token in two with a space / join two tokens
+            if j % 2 and len(toks[i]) > 1:
+                c = 1 + k % (len(toks[i]) - 1)
+                toks[i:i + 1] = [toks[i][:c], " ", toks[i][c:]]
+            elif i + 1 < n and toks[i + 1].isspace():
+                del toks[i + 1]
+    return "".join(toks)[:MAX_LEN]
+
+
+N_MUT_KINDS = 15
+
+
+def mutated(env):
+    """Strategy: a grammar template or a seed, hit by 1-3 token-level mutations."""
+    from hypothesis import strategies as st
+
+    seed = st.sampled_from(SEEDS)
+    base = st.one_of(seed, templates(env))
+    op = st.tuples(st.integers(0, N_MUT_KINDS - 1), st.integers(0, 199), st.integers(0, 199), st.integers(0, 999))
+    return st.builds(lambda s, o, ops: mutate(s, o, ops, env), base, seed, st.lists(op, min_size=1, max_size=3))
+
+
+# ---------------------------------------------------------------------------------------
+# template strings lifted once from /repo/tests/*.py (string constants holding a delimiter)
+
+SEEDS = [
+    "{% for item in seq %}|{{ item }}{% endfor %}",
+    "<{{ none }}>",
+    "<{{ value }}>",
+    "{{ value }}",
+    "{{ 'hello' }}",
+    "{{ foo }}",
+    "{% for item in range(total) %}{{ item }}{% endfor %}",
+    "{% set foo = 42 %}{{ bar + foo }}",
+    "{% set foo = 42 %}{{ bar + foo }}{% macro meh(x) %}{{ x }}{% endmacro %}{% for item in seq %}{{ muh(item) + meh(seq) }}{% endfor %}",
+    "{% for x in range(5) %}{{ x }}{% endfor %}{{ foo }}",
+    "{% extends \"layout.html\" %}{% include helper %}",
+    "{% extends \"layout.html\" %}{% from \"test.html\" import a, b as c %}{% import \"meh.html\" as meh %}{% include \"muh.html\" %}",
+    "{% include [\"foo.html\", \"bar.html\"] %}",
+    "{% include (\"foo.html\", \"bar.html\") %}",
+    "{% include [\"foo.html\", \"bar.html\", foo] %}",
+    "{% include (\"foo.html\", \"bar.html\", foo) %}",
+    "<ul>{% for item in seq %}<li>{{ loop.index }} - {{ item }}</li>{%- endfor %}</ul>",
+    "A{{ test() }}B",
+    "A{{ test().missingattribute }}B",
+    "{{ missing }}",
+    "{{ no such element: int object['missing'] }}",
+    "{{ var[42].foo }}",
+    "{% set foo = \"foo\" %}{{ foo }}",
+    "{{ foo.items()|list }}",
+    "{{ foo|attr(\"items\")()|list }}",
+    "{{ foo[\"items\"] }}",
+    "{{ undefined value printed: ",
+    "{{ missing.attribute }}",
+    "{{ missing - 1}}",
+    "{{ missing|list }}",
+    "{{ 'foo' in missing }}",
+    "{{ foo.missing }}",
+    "{{ not missing }}",
+    "{{ missing is not defined }}",
+    "{{ missing.bar[\"baz\"] }}",
+    "{{ foo.bar[\"baz\"]._undefined_name }}",
+    "{{ missing|default(\"default\", true) }}",
+    "{{ \"foo\" if false }}",
+    "{% for item in [1, 2, 3] %}[{{ item }}]{% endfor %}",
+    "{{ async_func() + normal_func() }}",
+    "{% macro foo(x) %}[{{ x }}][{{ async_func() }}]{% endmacro %}{{ foo(42) }}",
+    "{% block foo %}<Test>{% endblock %}{{ self.foo() }}",
+    "{% for x in [1, 2, 3] %}{{ x }}{% endfor %}",
+    "{% for x in rng %}{{ x }}{% endfor %}",
+    "{% for x in rng %}{{ loop.index0 }}/{{ x }}{% endfor %}",
+    "{{ (a|add_each(2))[1:] }}",
+    "{{ add_each(a, 2)[1:] }}",
+    "{% include \"header\" %}",
+    "{% extends \"header\" %}",
+    "{% import \"module\" as m %}{{ m.test() }}",
+    "{% import \"module\" as m without context %}{{ m.test() }}",
+    "{% import \"module\" as m with context %}{{ m.test() }}",
+    "{% from \"module\" import test %}{{ test() }}",
+    "{% from \"module\" import test without context %}{{ test() }}",
+    "{% from \"module\" import test with context %}{{ test() }}",
+    "{% from \"foo\" import bar, baz with context %}",
+    "{% from \"foo\" import bar, baz, with context %}",
+    "{% from \"foo\" import bar, with context %}",
+    "{% from \"foo\" import bar, with, context %}",
+    "{% from \"foo\" import bar, with with context %}",
+    "{% set foo = 41 %}{% import \"module\" as m %}{{ m.test() }}",
+    "{% include \"header\" with context %}",
+    "{% include \"header\" without context %}",
+    "{% include [\"missing\", \"header\"] %}",
+    "{% include [\"missing\", \"missing2\"] ignore missing %}",
+    "{% include [\"missing\", \"missing2\"] %}",
+    "{% include x %}",
+    "{% include [x, \"header\"] %}",
+    "{% include [x] %}",
+    "{% include \"missing\" %}",
+    "\n            {% macro outer(o) %}\n            {% macro inner() %}\n            {% include \"o_printer\" %}\n            {% endmacro %}\n            {{ inner() }}\n            {% endmacro %}\n            {{ outer(\"FOO\") }}\n        ",
+    "{% for item in seq %}{{ item }}{% endfor %}",
+    "{% for item in seq %}XXX{% else %}...{% endfor %}",
+    "<{% for item in seq %}{% else %}{% endfor %}>",
+    "{% for item in seq %}{{ loop.index }}|{{ loop.index0 }}|{{ loop.revindex }}|{{ loop.revindex0 }}|{{ loop.first }}|{{ loop.last }}|{{ loop.length }}\n{% endfor %}",
+    "{% for item in seq %}{{\n            loop.cycle('<1>', '<2>') }}{% endfor %}{%\n            for item in seq %}{{ loop.cycle(*through) }}{% endfor %}",
+    "{% for item in seq -%}\n            {{ loop.previtem|default('x') }}-{{ item }}-{{\n            loop.nextitem|default('x') }}|\n        {%- endfor %}",
+    "{% for item in seq -%}\n            {{ loop.changed(item) }},\n        {%- endfor %}",
+    "{% for item in seq %}{% endfor %}{{ item }}",
+    "{% for item in iter %}{{ item }}{% endfor %}",
+    "{% for item in none %}...{% endfor %}",
+    "{% for item in seq recursive -%}\n            [{{ item.a }}{% if item.b %}<{{ loop(item.b) }}>{% endif %}]\n        {%- endfor %}",
+    "{% for item in seq recursive -%}\n            [{{ loop.previtem.a if loop.previtem is defined else 'x' }}.{{\n            item.a }}.{{ loop.nextitem.a if loop.nextitem is defined else 'x'\n            }}{% if item.b %}<{{ loop(item.b) }}>{% endif %}]\n        {%- endfor %}",
+    "{% for item in seq recursive %}[{{ loop.depth0 }}:{{ item.a }}{% if item.b %}<{{ loop(item.b) }}>{% endif %}]{% endfor %}",
+    "{% for item in seq recursive %}[{{ loop.depth }}:{{ item.a }}{% if item.b %}<{{ loop(item.b) }}>{% endif %}]{% endfor %}",
+    "{% for row in table %}\n            {%- set rowloop = loop -%}\n            {% for cell in row -%}\n                [{{ rowloop.index }}|{{ loop.index }}]\n            {%- endfor %}\n        {%- endfor %}",
+    "{% for i in items %}{{ i }}{% if not loop.last %},{% endif %}{% endfor %}",
+    "{% for item in [1] if loop.index\n                                      == 0 %}...{% endfor %}",
+    "{% for item in [] %}...{% else\n            %}{{ loop }}{% endfor %}",
+    "{% for item in range(10) if item is even %}[{{ item }}]{% endfor %}",
+    "\n            {%- for item in range(10) if item is even %}[{{\n                loop.index }}:{{ item }}]{% endfor %}",
+    "{% for s in seq %}[{{ loop.first }}{% for c in s %}|{{ loop.first }}{% endfor %}]{% endfor %}",
+    "{% for x in seq %}{{ loop.first }}{% for y in seq %}{% endfor %}{% endfor %}",
+    "{% for x in seq %}{% for y in seq %}{{ loop.first }}{% endfor %}{% endfor %}",
+    "\n        {%- for item in foo recursive -%}{%- endfor -%}\n        ",
+    "\n        {%- macro do_something() -%}\n            [{{ caller() }}]\n        {%- endmacro %}\n\n        {%- for i in [1, 2, 3] %}\n            {%- call do_something() -%}\n                {{ i }}\n            {%- endcall %}\n        {%- endfor -%}\n        ",
+    "\n        {%- for item in foo %}...{{ item }}...{% endfor %}\n        {%- macro item(a) %}...{{ a }}...{% endmacro %}\n        {{- item(2) -}}\n        ",
+    "{% for a, b, c in [[1, 2, 3]] %}{{ a }}|{{ b }}|{{ c }}{% endfor %}",
+    "\n        <?xml version=\"1.0\" encoding=\"UTF-8\"?>\n        <urlset xmlns=\"http://www.sitemaps.org/schemas/sitemap/0.9\">\n          {%- for page in [site.root] if page.url != this recursive %}\n          <url><loc>{{ page.url }}</loc></url>\n          {{- loop(page.children) }}\n          {%- endfor %}\n        </urlset>\n        ",
+    "\n        <?xml version=\"1.0\" encoding=\"UTF-8\"?>\n        <urlset xmlns=\"http://www.sitemaps.org/schemas/sitemap/0.9\">\n          {%- for page in items if page.url != this %}\n          <url><loc>{{ page.url }}</loc></url>\n          {%- endfor %}\n        </urlset>\n        ",
+    "{% for x in a.b[:1] %}{{ x }}{% endfor %}",
+    "{% set ns = namespace(foo=\"Bar\") %}{{ ns.foo }}",
+    "{% for x in a['b']['c'] %}{{ x }}{% endfor %}",
+    "{{ x }}",
+    "\n            {% macro toplevel() %}...{% endmacro %}\n            {% macro __private() %}...{% endmacro %}\n            {% set variable = 42 %}\n            {% for item in [1] %}\n                {% macro notthere() %}{% endmacro %}\n            {% endfor %}\n            ",
+    "<?xml version=\"1.0\" encoding=\"UTF-8\"?>",
+    "{% macro test() %}[{{ foo }}|{{ bar }}]{% endmacro %}",
+    "[{{ foo }}|{{ 23 }}]",
+    "({{ o }})",
+    "{% include \"missing\" ignore missing ",
+    "{% for item in [1, 2, 3] %}{% include 'item' %}{% endfor %}",
+    "{{ item }}",
+    "\n    {%- for grouper, list in items()|groupby('foo') -%}\n        {{ grouper }}{% for x in list %}: {{ x.foo }}, {{ x.bar }}{% endfor %}|\n    {%- endfor %}",
+    "{% for k, vs in data|groupby('k', case_sensitive=cs) %}{{ k }}: {{ vs|join(', ', attribute='v') }}\n{% endfor %}",
+    "\n    {%- for grouper, list in items()|groupby(0) -%}\n        {{ grouper }}{% for x in list %}:{{ x.1 }}{% endfor %}|\n    {%- endfor %}",
+    "\n    {%- for year, list in articles()|groupby('date.year') -%}\n        {{ year }}{% for x in list %}[{{ x.title }}]{% endfor %}|\n    {%- endfor %}",
+    "{{ items()|join(\"|\") }}",
+    "{{ [\"<foo>\", \"<span>foo</span>\"|safe]|join }}",
+    "{{ users()|join(', ', 'username') }}",
+    "{{ items()|reject(\"odd\")|join(\"|\") }}",
+    "{{ items()|reject|join(\"|\") }}",
+    "{{ items()|select(\"odd\")|join(\"|\") }}",
+    "{{ items()|select|join(\"|\") }}",
+    "{{ users()|selectattr(\"is_active\")|map(attribute=\"name\")|join(\"|\") }}",
+    "{{ items()|map(\"int\")|sum }}",
+    "{{ [[1,2], [3], [4,5,6]]|map(\"sum\")|list }}",
+    "{{ users()|map(attribute=\"name\")|join(\"|\") }}",
+    "{{ none|map(\"upper\")|list }}",
+    "{{ items()|sum }}",
+    "{{ items()|sum('value') }}",
+    "{{ values|sum('real.value') }}",
+    "{{ values.items()|sum('1') }}",
+    "{{ items()|slice(3)|list }}|{{ items()|slice(3, 'X')|list }}",
+    "{{ items|reject('==', 'z')|unique|list }}",
+    "{{ 'static'|customfilter }} {{ arg|customfilter }}",
+    "{{ closing(foo())|first }}",
+    "{{ closing(items())|customfilter }} .. {{ [3, 4, 5, 6]|customfilter }}",
+    "{% for i in seq %}\n",
+    "\n{% endfor %}",
+    "{% block test %}\n",
+    "\n{% endblock test %}",
+    "{% import \"bar\" as bar",
+    "{% set a",
+    "  {% set a",
+    "{% from 'macro' import m %}{{ m() }}",
+    "{% for item in [] %}{% else %}{{ item }}{% endfor %}",
+    "{% for item in seq recursive -%}\n        [{{ loop.depth0 }}:{{ item.a }}{% if item.b %}<{{ loop(item.b) }}>{% endif %}]\n        {%- endfor %}",
+    "{% for item in seq recursive -%}\n        [{{ loop.depth }}:{{ item.a }}{% if item.b %}<{{ loop(item.b) }}>{% endif %}]\n        {%- endfor %}",
+    "{% for loop in seq %}...{% endfor %}",
+    "{% for item in seq %}{{ x }}{% set x = item %}{{ x }}{% endfor %}",
+    "{% set x = 9 %}{% for item in seq %}{{ x }}{% set x = item %}{{ x }}{% endfor %}",
+    "{% if true %}...{% endif %}",
+    "{% if false %}XXX{% elif true\n            %}...{% else %}XXX{% endif %}",
+    "{% if false %}XXX{% else %}...{% endif %}",
+    "[{% if true %}{% else %}{% endif %}]",
+    "{% if a %}A{% elif b %}B{% elif c == d %}C{% else %}D{% endif %}",
+    "{% if a %}{% set foo = 1 %}{% endif %}{{ foo }}",
+    "{% if true %}{% set foo = 1 %}{% endif %}{{ foo }}",
+    "{% macro say_hello(name) %}Hello {{ name }}!{% endmacro %}\n{{ say_hello('Peter') }}",
+    "{% macro level1(data1) %}\n{% macro level2(data2) %}{{ data1 }}|{{ data2 }}{% endmacro %}\n{{ level2('bar') }}{% endmacro %}\n{{ level1('foo') }}",
+    "{% macro m(a, b, c='c', d='d') %}{{ a }}|{{ b }}|{{ c }}|{{ d }}{% endmacro %}\n{{ m() }}|{{ m('a') }}|{{ m('a', 'b') }}|{{ m(1, 2, 3) }}",
+    "{% macro m(a, b=1, c) %}a={{ a }}, b={{ b }}, c={{ c }}{% endmacro %}",
+    "{% macro a() %}{{ caller() }}{% endmacro %}\n{% call(x, y=1, z) a() %}{% endcall %}",
+    "{% macro test() %}{{ varargs|join('|') }}{% endmacro %}{{ test(1, 2, 3) }}",
+    "{% macro test() %}[[{{ caller() }}]]{% endmacro %}{% call test() %}data{% endcall %}",
+    "{% macro test() %}[[{{ caller('data') }}]]{% endmacro %}{% call(data) test() %}{{ data }}{% endcall %}",
+    "{% set caller = 42 %}{% macro test() %}{{ caller is not defined }}{% endmacro %}{{ test() }}",
+    "{% from \"include\" import test %}{{ test(\"foo\") }}",
+    "{% macro foo(a, b) %}{% endmacro %}{% macro bar() %}{{ varargs }}{{ kwargs }}{% endmacro %}{% macro baz() %}{{ caller() }}{% endmacro %}",
+    "{% macro foo(x) %}{{ x }}{% if x > 1 %}|{{ foo(x - 1) }}{% endif %}{% endmacro %}{{ foo(5) }}",
+    "\n            {%- set x = 42 %}\n            {%- macro m(a, b=x, x=23) %}{{ a }}|{{ b }}|{{ x }}{% endmacro -%}\n        ",
+    "{% set foo = 1 %}{{ foo }}",
+    "{% set foo %}42{% endset %}{{ foo }}",
+    "{% set foo %}<em>{{ test }}</em>{% endset %}foo: {{ foo }}",
+    "{% set foo['bar'] = 1 %}",
+    "{% set foo.bar = 1 %}",
+    "{% set ns = namespace() %}{% set ns.bar = 'hi' %}",
+    "{% set ns = namespace() %}{% set ns.bar = '42' %}{{ ns.bar }}",
+    "{% set ns = namespace() %}{% set ns.bar %}42{% endset %}{{ ns.bar }}",
+    "{% set ns = namespace(d, self=37) %}{% set ns.b = 42 %}{{ ns.a }}|{{ ns.self }}|{{ ns.b }}",
+    "{% set ns = namespace(found=false) %}{% for x in range(4) %}{% if x == v %}{% set ns.found = true %}{% endif %}{% endfor %}{{ ns.found }}",
+    "{% set ns = namespace() %}{% set ns.a = 13 %}{% macro magic(x) %}{% set x.b = 37 %}{% endmacro %}{{ magic(ns) }}{{ ns.a }}|{{ ns.b }}",
+    "{% set ns = namespace(a=12, b=36) %}{% set ns.a, ns.b = ns.a + 1, ns.b + 1 %}{{ ns.a }}|{{ ns.b }}",
+    "{% set foo | trim %}<em>{{ test }}</em>    {% endset %}foo: {{ foo }}",
+    "{% set foo | trim | length | string %} 42    {% endset %}{{ foo }}",
+    "{% set a = \" xxx \" %}{% set foo | myfilter(a) | trim | length | string %} {% set b = \" yy \" %} 42 {{ a }}{{ b }}   {% endset %}{{ foo }}",
+    "        {% with a=42, b=23 -%}\n            {{ a }} = {{ b }}\n        {% endwith -%}\n            {{ a }} = {{ b }}        ",
+    "        {%- with a=1, b=2, c=b, d=e, e=5 -%}\n            {{ a }}|{{ b }}|{{ c }}|{{ d }}|{{ e }}\n        {%- endwith -%}\n        ",
+    "{% for item in seq -%}\n            {{ loop.index }}|{{ loop.index0 }}|{{ loop.revindex }}|{{\n                loop.revindex0 }}|{{ loop.first }}|{{ loop.last }}|{{\n               loop.length }}###{% endfor %}",
+    "{% if a == 0 %}0",
+    "{% else %}x{% endif %}",
+    "{% elif a == ",
+    "{% macro test(foo) %}[{{ foo }}]{% endmacro %}",
+    "(?sm)\n  File \".*?syntaxerror.html\", line 4, in (template|<module>)\n    \\{% endif %\\}.*?\n(jinja2\\.exceptions\\.)?TemplateSyntaxError: Encountered unknown tag 'endif'. Jinja was looking for the following tags: 'endfor' or 'else'. The innermost block that needs to be closed is 'for'.\n    ",
+    "a\n{% include 'syntaxerror.html' %}\nb",
+    "<title>{{ page_title|default(_(\"missing\")) }}</title>{% block body %}{% endblock %}",
+    "{% extends \"default.html\" %}{% block body %}{% trans %}watch out{% endtrans %}{% endblock %}",
+    "{% trans user_count %}One user online{% pluralize %}{{ user_count }} users online{% endtrans %}",
+    "{% trans user_count=get_user_count() %}{{ user_count }}s{% pluralize %}{{ user_count }}p{% endtrans %}",
+    "{{ _(\"User: %(num)s\")|format(num=user_count) }}",
+    "{{ _(\"User: %(num)s\", num=user_count) }}",
+    "{{ ngettext(\"%(num)s apple\", \"%(num)s apples\", apples) }}",
+    "{% trans num=apples %}{{ num }} apple{% pluralize %}{{ num }} apples{% endtrans %}",
+    "{{ pgettext(\"fruit\", \"Apple\") }}",
+    "{{ npgettext(\"fruit\", \"%(num)s apple\", \"%(num)s apples\", apples) }}",
+    "{% trans 'fruit' num=apples %}Apple{% endtrans %}",
+    "{% trans 'fruit' num=apples %}{{ num }} apple{% pluralize %}{{ num }} apples{% endtrans %}",
+    "{% trans %}User: {{ num }}{% endtrans %}",
+    "{% trans num=count %}User: {{ num }}{% endtrans %}",
+    "{% trans count=num %}User: {{ count }}{% endtrans %}",
+    "{% trans %}%(hello)s{% endtrans %}",
+    "{% trans %}{{ foo }}%(foo)s{% endtrans %}",
+    "{% trans foo=\"42\" %}%(foo)s{% endtrans %}",
+    "{%- trans %}  hello\n  world  {% endtrans -%}",
+    "{% trans %}foo{% trans %}{% endtrans %}",
+    "{% trans %}foo{% wibble bar %}{% endwibble %}{% endtrans %}",
+    "{% macro m() %}<html>{% endmacro %}{% autoescape true %}{{ m() }}{% endautoescape %}",
+    "\n        {% autoescape val %}\n            {% macro foo(x) %}\n                [{{ x }}]\n            {% endmacro %}\n            {{ foo().__class__.__name__ }}\n        {% endautoescape %}\n        {{ '<testing>' }}\n        ",
+    "({{ foo }})",
+    "{% autoescape true %}{{ \"<test>\" }}{% endautoescape %}",
+    "\n            {%- for item in [1, 2, 3, 4] %}\n                {%- if item % 2 == 0 %}{% continue %}{% endif -%}\n                {{ item }}\n            {%- endfor %}",
+    "\n            {%- for item in [1, 2, 3, 4] %}\n                {%- if item > 2 %}{% break %}{% endif -%}\n                {{ item }}\n            {%- endfor %}",
+    "\n            {%- set items = [] %}\n            {%- for char in \"foo\" %}\n                {%- do items.append(loop.index0 ~ char) %}\n            {%- endfor %}{{ items|join(', ') }}",
+    "{% test %}",
+    "{% set test_var=\"test_content\" %}{% test %}",
+    "{% for test_var in [\"test_content\"] %}{% test %}{% endfor %}",
+    "Hello\n{% debug %}\nGoodbye",
+    "{% trans foo=42, count=2 %}{{ count }} item{% pluralize count %}{{ count }} items{% endtrans %}",
+    "{% trans foo %}...{% pluralize bar %}...{% endtrans %}",
+    "{%- trans trimmed %}  hello\n  world  {% endtrans -%}",
+    "{%- trans notrimmed %}  hello\n  world  {% endtrans -%}",
+    "{%- trans trimmed x=\"world\" %}  hello\n  {{ x }} {% endtrans -%}",
+    "{%- trans trimmed = 'world' %}  hello\n  {{ trimmed }}  {% endtrans -%}",
+    "        {%- scope a=1, b=2, c=b, d=e, e=5 -%}\n            {{ a }}|{{ b }}|{{ c }}|{{ d }}|{{ e }}\n        {%- endscope -%}\n        ",
+    "{% autoescape ae %}{{ gettext(\"foo\", name=\"<test>\") }}{% endautoescape %}",
+    "\n            {% trans num=3 %}{{ num }} apple{% pluralize\n            %}{{ num }} apples{% endtrans %}\n        ",
+    "\n            {{ \"<HelloWorld>\" }}\n            {% autoescape false %}\n                {{ \"<HelloWorld>\" }}\n            {% endautoescape %}\n            {{ \"<HelloWorld>\" }}\n        ",
+    "\n            {{ \"<HelloWorld>\" }}\n            {% autoescape true %}\n                {{ \"<HelloWorld>\" }}\n            {% endautoescape %}\n            {{ \"<HelloWorld>\" }}\n        ",
+    "{{ {\"foo\": \"<test>\"}|xmlattr|escape }}",
+    "{% autoescape false %}{{ {\"foo\": \"<test>\"}|xmlattr|escape }}{% endautoescape %}",
+    "{% autoescape foo %}{{ {\"foo\": \"<test>\"}|xmlattr|escape }}{% endautoescape %}",
+    "{% autoescape true %}{% set x = \"<x>\" %}{{ x }}{% endautoescape %}{{ x }}{{ \"<y>\" }}",
+    "\n            {{- x }}|{% set z = 99 %}\n            {%- overlay %}\n                {{- y }}|{{ z }}|{% for item in x %}[{{ item }}]{% endfor %}\n            {%- endoverlay %}|\n            {{- x -}}\n        ",
+    "{{ \"foo bar\"|capitalize }}",
+    "{{ \"foo\"|center(9) }}",
+    "{{ missing|default('no') }}|{{ false|default('no') }}|{{ false|default('no', true) }}|{{ given|default('no') }}",
+    "{{ foo|batch(3)|list }}|{{ foo|batch(3, 'X')|list }}",
+    "{{ foo|slice(3)|list }}|{{ foo|slice(3, 'X')|list }}",
+    "{{ '<\">&'|escape }}",
+    "{{ foo|trim(chars) }}",
+    "{{ foo|striptags }}",
+    "{{ 100|filesizeformat }}|{{ 1000|filesizeformat }}|{{ 1000000|filesizeformat }}|{{ 1000000000|filesizeformat }}|{{ 1000000000000|filesizeformat }}|{{ 100|filesizeformat(true) }}|{{ 1000|filesizeformat(true) }}|{{ 1000000|filesizeformat(true) }}|{{ 1000000000|filesizeformat(true) }}|{{ 1000000000000|filesizeformat(true) }}",
+    "{{ 300|filesizeformat }}|{{ 3000|filesizeformat }}|{{ 3000000|filesizeformat }}|{{ 3000000000|filesizeformat }}|{{ 3000000000000|filesizeformat }}|{{ 300|filesizeformat(true) }}|{{ 3000|filesizeformat(true) }}|{{ 3000000|filesizeformat(true) }}",
+    "{{ foo|first }}",
+    "{{ value|float }}",
+    "{{ value|float(default=1.0) }}",
+    "{{ '%s|%s'|format('a', 'b') }}",
+    "{{ foo|indent(2, false, false) }}",
+    "{{ foo|indent(2, false, true) }}",
+    "{{ foo|indent(2, true, false) }}",
+    "{{ foo|indent(2, true, true) }}",
+    "{{ \"jinja\"|indent }}",
+    "{{ \"jinja\"|indent(first=true) }}",
+    "{{ \"jinja\"|indent(blank=true) }}",
+    "{{ 'jinja\nflask'|indent(width='>>> ', first=True) }}",
+    "{{ value|int }}",
+    "{{ value|int(base=base) }}",
+    "{{ value|int(default=1) }}",
+    "{{ [1, 2, 3]|join(\"|\") }}",
+    "{{ users|join(', ', 'username') }}",
+    "{{ foo|last }}",
+    "{{ \"hello world\"|length }}",
+    "{{ \"FOO\"|lower }}",
+    "{{ d|items|list }}",
+    "{{ data|pprint }}",
+    "{{ \"1234567890\"|random }}",
+    "{{ 'foobar'|reverse|join }}|{{ [1, 2, 3]|reverse|list }}",
+    "{{ obj|string }}",
+    "{{ \"foo bar\"|title }}",
+    "{{ \"foo's bar\"|title }}",
+    "{{ \"foo   bar\"|title }}",
+    "{{ \"f bar f\"|title }}",
+    "{{ \"foo-bar\"|title }}",
+    "{{ \"foo\tbar\"|title }}",
+    "{{ \"FOO\tBAR\"|title }}",
+    "{{ \"foo (bar)\"|title }}",
+    "{{ \"foo {bar}\"|title }}",
+    "{{ \"foo [bar]\"|title }}",
+    "{{ \"foo <bar>\"|title }}",
+    "{{ data|title }}",
+    "{{ data|truncate(15, true, \">>>\") }}|{{ data|truncate(15, false, \">>>\") }}|{{ smalldata|truncate(15) }}",
+    "{{ \"foo bar baz\"|truncate(9) }}|{{ \"foo bar baz\"|truncate(9, true) }}",
+    "{{ \"Joel is a slug\"|truncate(7, true) }}",
+    "{{ \"foo\"|upper }}",
+    "{{ \"foo example.org bar\"|urlize }}",
+    "{{ \"foo http://www.example.com/ bar\"|urlize }}",
+    "{{ \"foo mailto:email@example.com bar\"|urlize }}",
+    "{{ \"foo email@example.com bar\"|urlize }}",
+    "{{ \"foo http://www.example.com/ bar\"|urlize(target=\"_blank\") }}",
+    "{{ \"foo tel:+1-514-555-1234 ftp://localhost bar\"|urlize(extra_schemes=[\"tel:\", \"ftp:\"]) }}",
+    "{{ \"foo bar baz\"|wordcount }}",
+    "{{ s|wordcount }}",
+    "{% filter lower|escape %}<HEHE>{% endfilter %}",
+    "{{ ['<foo>', '<bar>']|first|upper|escape }}",
+    "{{ [1, 2, 3, 4, 5, 6]|sum }}",
+    "{{ values|sum('value') }}",
+    "{{ -1|abs }}|{{ 1|abs }}",
+    "{{ 2.7|round }}|{{ 2.1|round }}|{{ 2.1234|round(3, 'floor') }}|{{ 2.1|round(0, 'ceil') }}",
+    "{{ 21.3|round(-1)}}|{{ 21.3|round(-1, 'ceil')}}|{{ 21.3|round(-1, 'floor')}}",
+    "{{ {'foo': 42, 'bar': 23, 'fish': none, 'spam': missing, 'blub:blub': '<?>'}|xmlattr }}",
+    "{{ [2, 3, 1]|sort }}|{{ [2, 3, 1]|sort(true) }}",
+    "{{ \"\".join([\"c\", \"A\", \"b\", \"D\"]|sort) }}",
+    "{{ ['foo', 'Bar', 'blah']|sort }}",
+    "{{ items|sort(attribute='value')|join }}",
+    "{{ items|sort(attribute='value.0')|join }}",
+    "{{ items|sort(attribute='value1,value2')|join }}",
+    "{{ items|sort(attribute='value2,value1')|join }}",
+    "{{ items|sort(attribute='value1.0,value2.0')|join }}",
+    "{{ \"\".join([\"b\", \"A\", \"a\", \"b\"]|unique) }}",
+    "{{ \"\".join([\"b\", \"A\", \"a\", \"b\"]|unique(true)) }}",
+    "{{ items|unique(attribute='value')|join }}",
+    "\n        {%- for grouper, list in [{'foo': 1, 'bar': 2},\n                                  {'foo': 2, 'bar': 3},\n                                  {'foo': 1, 'bar': 1},\n                                  {'foo': 3, 'bar': 4}]|groupby('foo') -%}\n            {{ grouper }}{% for x in list %}: {{ x.foo }}, {{ x.bar }}{% endfor %}|\n        {%- endfor %}",
+    "\n        {%- for grouper, list in [('a', 1), ('a', 2), ('b', 1)]|groupby(0) -%}\n            {{ grouper }}{% for x in list %}:{{ x.1 }}{% endfor %}|\n        {%- endfor %}",
+    "\n        {%- for year, list in articles|groupby('date.year') -%}\n            {{ year }}{% for x in list %}[{{ x.title }}]{% endfor %}|\n        {%- endfor %}",
+    "{% for city, items in users|groupby('city', default='NY') %}{{ city }}: {{ items|map(attribute='name')|join(', ') }}\n{% endfor %}",
+    "{% filter upper|replace('FOO', 'foo') %}foobar{% endfilter %}",
+    "{{ string|replace(\"o\", 42) }}",
+    "{{ string|replace(\"<\", 42) }}",
+    "{{ string|replace(\"o\", \">x<\") }}",
+    "{{ x|forceescape }}",
+    "{{ \"<div>foo</div>\"|safe }}",
+    "{{ \"<div>foo</div>\" }}",
+    "{{ value|urlencode }}",
+    "{{ [\"1\", \"2\", \"3\"]|map(\"int\")|sum }}",
+    "{{ users|map(attribute=\"name\")|join(\"|\") }}",
+    "{{ users|map(attribute=\"lastname\", default=\"smith\")|join(\", \") }}",
+    "{{ users|map(attribute=\"lastname\", default=[\"smith\",\"x\"])|join(\", \") }}",
+    "{{ users|map(attribute=\"lastname\", default=\"\")|join(\", \") }}",
+    "{{ [1, 2, 3, 4, 5]|select(\"odd\")|join(\"|\") }}",
+    "{{ [none, false, 0, 1, 2, 3, 4, 5]|select|join(\"|\") }}",
+    "{{ [1, 2, 3, 4, 5]|reject(\"odd\")|join(\"|\") }}",
+    "{{ [none, false, 0, 1, 2, 3, 4, 5]|reject|join(\"|\") }}",
+    "{{ users|selectattr(\"is_active\")|map(attribute=\"name\")|join(\"|\") }}",
+    "{{ users|rejectattr(\"is_active\")|map(attribute=\"name\")|join(\"|\") }}",
+    "{{ users|selectattr(\"id\", \"odd\")|map(attribute=\"name\")|join(\"|\") }}",
+    "{{ users|rejectattr(\"id\", \"odd\")|map(attribute=\"name\")|join(\"|\") }}",
+    "{{ x|tojson }}",
+    "{{ s|wordwrap(20) }}",
+    "{%- if x is defined -%}{{ x|f }}{%- else -%}x{% endif %}",
+    "{%- if x is defined -%}{{ x }}{%- elif y is defined -%}{{ y|f }}{%- else -%}foo{%- endif -%}",
+    "{%- if x is not defined -%}foo{%- else -%}{{ x|f }}{%- endif -%}",
+    "{%- if x is not defined -%}foo{%- else -%}{%- if y is defined -%}{{ y|f }}{%- endif -%}{{ x }}{%- endif -%}",
+    "{{ x|f if x is defined else 'foo' }}",
+    "{{ 'foo' if x is not defined else x|f }}",
+    "{{ foo|dictsort(",
+    "  <p>just a small   \n <a href=\"#\">example</a> link</p>\n<p>to a webpage</p> <!-- <p>and some commented stuff</p> -->",
+    "{{ [\"a\", \"B\"]|min }}",
+    "{{ [\"a\", \"B\"]|min(case_sensitive=true) }}",
+    "{{ []|min }}",
+    "{{ [\"a\", \"B\"]|max }}",
+    "{{ [\"a\", \"B\"]|max(case_sensitive=true) }}",
+    "{{ []|max }}",
+    "{{ var|f }}",
+    "{{ items|",
+    "{{ {key: 'my_class'}|xmlattr }}",
+    "{% from \"foo\" import bar %}",
+    "{% from \"foo\" import bar, baz %}",
+    "{% from 'module' import nothing %}{{ nothing() }}",
+    "{% set foobar = 42 %}{% from 'a' import x with context %}{{ x() }}",
+    "{% from \"foo\" import %}",
+    "{% from \"foo\" import bar, %}",
+    "{% from \"foo\" import bar,, %}",
+    "{% from \"foo\" import, %}",
+    "{% from \"foo\" import bar,, with context %}",
+    "{% from \"foo\" import bar with context, %}",
+    "\n            {% macro toplevel() %}...{% endmacro %}\n            {% macro __private() %}...{% endmacro %}\n            {% set variable = 42 %}\n            {% for item in [1] %}\n                {% macro notthere() %}{% endmacro %}\n            {% endfor %}\n        ",
+    "{% macro x() %}{{ foobar }}{% endmacro %}",
+    "|{% block block1 %}block 1 from layout{% endblock %}\n|{% block block2 %}block 2 from layout{% endblock %}\n|{% block block3 %}\n{% block block4 %}nested block 4 from layout{% endblock %}\n{% endblock %}|",
+    "{% extends \"layout\" %}\n{% block block1 %}block 1 from level1{% endblock %}",
+    "{% extends \"level1\" %}\n{% block block2 %}{% block block5 %}nested block 5 from level2{%\nendblock %}{% endblock %}",
+    "{% extends \"level2\" %}\n{% block block5 %}block 5 from level3{% endblock %}\n{% block block4 %}block 4 from level3{% endblock %}\n",
+    "{% extends \"level3\" %}\n{% block block3 %}block 3 from level4{% endblock %}\n",
+    "{% extends \"layout\" %}\n{% block block1 %}\n  {% if false %}\n    {% block block2 %}\n      this should work\n    {% endblock %}\n  {% endif %}\n{% endblock %}\n",
+    "{% extends \"layout\" %}\n{% extends \"layout\" %}\n{% block block1 %}\n  {% if false %}\n    {% block block2 %}\n      this should work\n    {% endblock %}\n  {% endif %}\n{% endblock %}\n",
+    "Ensures that a template with more than 1 {% extends ... %} usage\n        raises a ``TemplateError``.\n        ",
+    "{{ self.foo() }}|{% block foo %}42{% endblock %}|{{ self.foo() }}",
+    "{% extends 'default.html' %}{% block item %}{{ item }}{% endblock %}",
+    "{% extends \"default.html\" %}{% block item %}{{ super() }}|{{ item * 2 }}{% endblock %}",
+    "{% block intro %}INTRO{% endblock %}|BEFORE|{% block data %}INNER{% endblock %}|AFTER",
+    "{% extends \"a\" %}{% block data %}({{ super() }}){% endblock %}",
+    "{% extends \"b\" %}{% block intro %}--{{ super() }}--{% endblock %}\n{% block data %}[{{ super() }}]{% endblock %}",
+    "{% if false %}{% block x %}A{% endblock %}{% endif %}{{ self.x() }}",
+    "{% extends \"a\" %}{% block x %}B{{ super() }}{% endblock %}",
+    "DEFAULT1{% block x %}{% endblock %}",
+    "DEFAULT2{% block x %}{% endblock %}",
+    "{% extends default %}{% block x %}CHILD{% endblock %}",
+    "{% if default %}{% extends default %}{% else %}{% extends 'default1' %}{% endif %}{% block x %}CHILD{% endblock %}",
+    "{% for item in seq %}[{% block item scoped %}{% endblock %}]{% endfor %}",
+    "{% for item in seq %}[{% block item scoped %}{{ item }}{% endblock %}]{% endfor %}",
+    "\n            {% block useless %}{% endblock %}\n            ",
+    "\n            {%- extends 'layout.html' %}\n            {% from 'helpers.html' import foo with context %}\n            {% block useless %}\n                {% for x in [1, 2, 3] %}\n                    {% block testing scoped %}\n                        {{ foo(x) }}\n                    {% endblock %}\n                {% endfor %}\n            {% endblock %}\n            ",
+    "\n            {% macro foo(x) %}{{ the_foo + x }}{% endmacro %}\n            ",
+    "{% block x required %}{# comment #}\n {% endblock %}",
+    "{% extends 'default' %}{% block x %}[1]{% endblock %}",
+    "{% block x required %}{% endblock %}",
+    "{% extends 'default' %}{% block x %}[2]{% endblock %}",
+    "{% extends 'default' %}",
+    "{% extends 'level1' %}{% block x %}[2]{% endblock %}",
+    "{% extends 'level2' %}",
+    "{% block x required %} {# c #}{% endblock %}",
+    "{% block x required %}data {# c #}{% endblock %}",
+    "{% block x required %}{% block y %}{% endblock %}{% endblock %}",
+    "{% block x required %}{% if true %}{% endif %}{% endblock %}",
+    "{% extends t %}{% block x %}CHILD{% endblock %}",
+    "{% for item in seq %}[{% block item scoped required %}{% endblock %}]{% endfor %}",
+    "{% extends 'default1' %}{% block item %}{{ item }}{% endblock %}",
+    "{% for item in seq %}[{% block item required scoped %}{% endblock %}]{% endfor %}",
+    "{% extends 'default2' %}{% block item %}{{ item }}{% endblock %}",
+    "{% for item in seq %}[{% block item scoped scoped %}}{{% endblock %}}]{{% endfor %}}",
+    "{% for item in seq %}[{% block item required required %}}{{% endblock %}}]{{% endfor %}}",
+    "{% if default %}{% extends default %}{% else %}{% extends 'default1' %}{% endif %}{%- block x %}CHILD{% endblock %}",
+    "        {% extends 'details.html' %}\n\n        {% macro my_macro() %}\n        my_macro\n        {% endmacro %}\n\n        {% block inner_box %}\n            {{ my_macro() }}\n        {% endblock %}\n            ",
+    "        {% extends 'standard.html' %}\n\n        {% macro my_macro() %}\n        my_macro\n        {% endmacro %}\n\n        {% block content %}\n            {% block outer_box %}\n                outer_box\n                {% block inner_box %}\n                    inner_box\n                {% endblock %}\n            {% endblock %}\n        {% endblock %}\n        ",
+    "\n        {% block content %}&nbsp;{% endblock %}\n        ",
+    "{% set true = 42 %}",
+    "{% for none in seq %}{% endfor %}",
+    "{% raw %}foo{% endraw %}|{%raw%}{{ bar }}|{% baz %}{%       endraw    %}",
+    "foo|{{ bar }}|{% baz %}",
+    "1  {%- raw -%}   2   {%- endraw -%}   3",
+    "bar\n{% raw %}\n  {{baz}}2 spaces\n{% endraw %}\nfoo",
+    "bar\n\n  {{baz}}2 spaces\nfoo",
+    "bar\n{%- raw -%}\n\n  \n  2 spaces\n space{%- endraw -%}\nfoo",
+    "{% for item in seq\n            %}${{'foo': item}|upper}{% endfor %}",
+    "<!--",
+    "<ul>\n<!--- for item in seq -->\n  <li>{item}</li>\n<!--- endfor -->\n</ul>",
+    "{{ 'foo'|pprint }}|{{ 'b\u00e4r'|pprint }}",
+    "<html>\n    <body>\n    {%- block content -%}\n        <hr>\n        {{ item }}\n    {% endblock %}\n    </body>\n</html>",
+    "<!-- I'm a comment, I'm not interesting --><? for item in seq -?>\n    <?= item ?>\n<?- endfor ?>",
+    "<%# I'm a comment, I'm not interesting %><% for item in seq -%>\n    <%= item %>\n<%- endfor %>",
+    "<!--#",
+    "<!--# I'm a comment, I'm not interesting --><!-- for item in seq --->\n    ${item}\n<!--- endfor -->",
+    "{{{'foo':'bar'}.foo}}",
+    "{# foo comment\nand bar comment #}\n{% macro blub() %}foo{% endmacro %}\n{{ blub() }}",
+    "<%# regular comment %>\n% for item in seq:\n    ${item}\n% endfor",
+    "<%# regular comment %>\n% for item in seq:\n    ${item} ## the rest of the stuff\n% endfor",
+    "/* ignore me.\n   I'm a multiline comment */\n## for item in seq:\n* ${item}          # this is just extra stuff\n## endfor",
+    "/* ignore me.\n   I'm a multiline comment */\n# for item in seq:\n* ${item}          ## this is just extra stuff\n    ## extra stuff i just want to ignore\n# endfor",
+    "{% for item in seq %}...{% endif %}",
+    "{% if foo %}{% for item in seq %}...{% endfor %}{% endfor %}",
+    "{% if foo %}",
+    "{% for item in seq %}",
+    "{% block foo-bar-baz %}",
+    "{% unknown_tag %}",
+    "{{ foo('a', c='d', e='f', *['b'], **{'g': 'h'}) }}",
+    "{{ [1, 2, 3][:] }}|{{ [1, 2, 3][::-1] }}",
+    "{{ foo.bar }}|{{ foo['bar'] }}",
+    "{{ foo[0] }}|{{ foo[-1] }}",
+    "{{ () }}|{{ (1,) }}|{{ (1, 2) }}",
+    "{{ (1 + 1 * 2) - 3 / 2 }}|{{ 2**3 }}",
+    "{{ 3 // 2 }}|{{ 3 / 2 }}|{{ 3 % 2 }}",
+    "{{ +3 }}|{{ -3 }}",
+    "{{ [1, 2] ~ 'foo' }}",
+    "{{ i * (j < 5) }}",
+    "{{ 1 in [1, 2, 3] }}|{{ 1 not in [1, 2, 3] }}",
+    "{{ true and false }}|{{ false or true }}|{{ not false }}",
+    "{{ (true and false) or (false and true) and not false }}",
+    "{{ [1, 2, 3].0 }}|{{ [[1]].0.0 }}",
+    "{{ 0 if true else 1 }}",
+    "<{{ 1 if false }}>",
+    "<{{ (1 if false).bar }}>",
+    "{{ \"foo\"|upper + \"bar\"|upper }}",
+    "{{ () }}",
+    "{{ (1, 2) }}",
+    "{{ (1, 2,) }}",
+    "{{ 1, }}",
+    "{{ 1, 2 }}",
+    "{% for foo, bar in seq %}...{% endfor %}",
+    "{% for x in foo, bar %}...{% endfor %}",
+    "{% for x in foo, %}...{% endfor %}",
+    "{{ (1, 2,) }}|{{ [1, 2,] }}|{{ {1: 2,} }}",
+    "{% block foo %}...{% endblock foo %}",
+    "{% block x %}{% endblock y %}",
+    "{{ foo is string is sequence }}",
+    "{{ \"foo\" \"bar\" \"baz\" }}",
+    "{{ not 42 in bar }}",
+    "{{ 2 * 3 + 4 % 2 + 1 - 2 }}",
+    "{{ foo[1, 2] }}",
+    "{% raw %}{{ FOO }} and {% BAR %}{% endraw %}",
+    "{{ FOO }} and {% BAR %}",
+    "{{ true }}|{{ false }}|{{ none }}|{{ none is defined }}|{{ missing is defined }}",
+    "{{ -1|foo }}",
+    "{% set foo = 0 %}{% for item in [1, 2] %}{% set foo = 1 %}{% endfor %}{{ foo }}",
+    "{{ -foo[\"bar\"] }}",
+    "{{ -foo[\"bar\"]|abs }}",
+    "    {% if True %}\n    {% endif %}",
+    "    {%+ if True %}\n    {%+ endif %}",
+    "    hello{% if True %}\n    goodbye{% endif %}",
+    "    {% if True %}hello    {% endif %}",
+    "    {% if True %}a {% if True %}b {% endif %}c {% endif %}",
+    "    abc {% if True %}\n        hello{% endif %}",
+    "    {% set x = \" {% str %} \" %}{{ x }}",
+    " {% str %} ",
+    "\n\n\n{% set hello = 1 %}",
+    "    {# if True #}\nhello\n    {#endif#}",
+    "    <% if True %>hello    <% endif %>",
+    "    <%# if True %>hello    <%# endif %>",
+    "    <%# regular comment %>\n    <% for item in seq %>\n${item} ## the rest of the stuff\n   <% endfor %>",
+    "    <%#regular comment%>\n    <%for item in seq%>\n${item} ## the rest of the stuff\n   <%endfor%>",
+    "  {% if kvs %}(\n   {% for k, v in kvs %}{{ k }}={{ v }} {% endfor %}\n  ){% endif %}",
+    "  ({% if kvs %}\n   {% for k, v in kvs %}{{ k }}={{ v }} {% endfor %}\n  {% endif %})",
+    "  {% if kvs %}   {% for k, v in kvs %}{{ k }}={{ v }} {% endfor %}  {% endif %}",
+    "  {% if kvs -%}   {% for k, v in kvs %}{{ k }}={{ v }} {% endfor -%}  {% endif -%}",
+    "  {%- if kvs %}   {%- for k, v in kvs %}{{ k }}={{ v }} {% endfor -%}  {%- endif %}",
+    " {# 1 space #}\n  {# 2 spaces #}    {# 4 spaces #}",
+    "{{x}}\n{%- raw %} {% endraw -%}\n{{ y }}",
+    "    <!-- I'm a comment, I'm not interesting -->\n    <? for item in seq -?>\n        <?= item ?>\n    <?- endfor ?>",
+    "    <!-- I'm a comment, I'm not interesting -->\n    <? for item in seq ?>\n        <?= item ?>\n    <? endfor ?>",
+    "    <!-- I'm a comment, I'm not interesting -->\n    <?for item in seq?>\n        <?=item?>\n    <?endfor?>",
+    "<%# I'm a comment, I'm not interesting %>\n    <% for item in seq %>\n    <%= item %>\n    <% endfor %>\n",
+    "<%# I'm a comment, I'm not interesting %>\n    <% for item in seq -%>\n        <%= item %>\n    <%- endfor %>",
+    "<%# I'm a comment, I'm not interesting %>\n    <%+ for item in seq -%>\n        <%= item %>\n    <%- endfor %>",
+    "    {% if True +%}\n    {% endif %}",
+    "{% if True %}X{% endif +%}\nmore things",
+    "    {# comment #}\n    ",
+    "    {# comment +#}\n    ",
+    "    {% raw %}{% endraw %}\n    ",
+    "    {% raw %}{% endraw +%}\n    ",
+    "    {% if True %}\na {% if True %}\nb {% endif %}\nc {% endif %}",
+    "    {% if True +%}\na {% if True +%}\nb {% endif +%}\nc {% endif %}",
+    "    {# comment #}\n\n  ",
+    "    {# comment +#}\n\n  ",
+    "   {# comment #}\n\n{# comment2 #}\n   \n{# comment3 #}\n\n ",
+    "   {# comment +#}\n\n{# comment2 +#}\n   \n{# comment3 +#}\n\n ",
+    "{{x}}{% raw %}\n\n    {% endraw %}\n\n{{ y }}",
+    "{{x}}{% raw %}\n\n      {% endraw +%}\n\n{{ y }}",
+    "    <% if True +%>\n\n    <% endif %>",
+    "    <%# comment +%>\n\n   ",
+    "    <? if True +?>\n\n    <? endif ?>",
+    "    <!-- comment +-->\n\n    ",
+    "{{ 4 < 2 < 3 }}",
+    "{{ a < b < c }}",
+    "{{ 4 > 2 > 3 }}",
+    "{{ a > b > c }}",
+    "{{ 4 > 2 < 3 }}",
+    "{{ a > b < c }}",
+    "{{x}}{% raw +%}\n\n  {% endraw +%}\n\n{{ y }}",
+    " }}|{{ ",
+    "{{ \"\u2668\" }}",
+    "{{ 42 is string or 42 is number }}",
+    "{{ foo(",
+    "{{ missing is defined }}",
+    "{{ 3 + missing }}",
+    "{{ a + b }}",
+    "{{ a }} + {{ b }}",
+    "{% for x in value %}{{ x }}{% endfor %}",
+    "{{ x.__class__ }}",
+    "{{ true.__class__ }}",
+    "{{ true.__class__|string }}",
+    "[{{ 'all' }}]",
+    "'{{ a }}', 'data', '{{ b }}', b'{{ c }}'",
+    "--host='{{ host }}' --user \"{{ user }}\"",
+    "0.000{{ a }}",
+    "{{ true }}",
+    " {{ True }}",
+    "{%- macro x() -%}{{- [1,2] -}}{%- endmacro -%}{{- x()[1] -}}",
+    "{% block b %}{% for i in range(1) %}{{ loop.index }}{% endfor %}{% endblock %}{{ self.b() }}",
+    "{{ 1 == 1 }}",
+    "{{ 2 + 2 == 5 }}",
+    "{{ None is none }}",
+    "{{ '' == None }}",
+    "{%- macro x(y) -%}{{ y }}{%- endmacro -%}{{- x('not') }} {{ x('bad') -}}",
+    "x={{ x }}",
+    "{% macro m() %}<html>{% endmacro %}",
+    "{% autoescape true %}{{ m() }}{% endautoescape %}",
+    "{% if True %}{{ a.b }}{% set a = 1 %}{% elif False %}{% set a = 2 %}{% else %}{% set a = 3 %}{% endif %}{{ a }}",
+    "\n        {%- for item in (1, 2, 3, 4) -%}\n            [{{ item }}]\n        {%- endfor %}\n        {{- item -}}\n        ",
+    "\n        {%- for item in (1, 2, 3, 4) -%}\n            [{{ item }}]\n        {%- endfor %}\n        {%- set item = 42 %}\n        {{- item -}}\n        ",
+    "\n        {%- set item = 42 %}\n        {%- for item in (1, 2, 3, 4) -%}\n            [{{ item }}]\n        {%- endfor %}\n        {{- item -}}\n        ",
+    "\n        {%- set wrapper = \"<FOO>\" %}\n        {%- for item in (1, 2, 3, 4) %}\n            {%- macro wrapper() %}[{{ item }}]{% endmacro %}\n            {{- wrapper() }}\n        {%- endfor %}\n        {{- wrapper -}}\n        ",
+    "\n        {%- for item in (1, 2, 3, 4) %}\n            {%- macro wrapper() %}[{{ item }}]{% endmacro %}\n            {{- wrapper() }}\n        {%- endfor %}\n        {%- set wrapper = \"<FOO>\" %}\n        {{- wrapper -}}\n        ",
+    "\n        {%- for item in (1, 2, 3, 4) %}\n            {%- macro wrapper() %}[{{ item }}]{% endmacro %}\n            {{- wrapper() }}\n        {%- endfor %}\n        {{- wrapper -}}\n        ",
+    "{% if expr %}{% extends \"parent.html\" %}{% endif %}[[{% block title %}title{% endblock %}]]{% for item in [1, 2, 3] %}({{ item }}){% endfor %}",
+    "{{ \"http://www.example.org/<foo\"|urlize }}",
+    "{{ \"(see http://www.example.org/?page=subj_<desc.h>)\"|urlize }}",
+    "\n\n        {% macro test() %}\n            {{ caller() }}\n        {% endmacro %}\n\n        {% for num1 in range(5) %}\n            {% call test() %}\n                {% for num2 in range(10) %}\n                    {{ loop.index }}\n                {% endfor %}\n            {% endcall %}\n        {% endfor %}\n\n        ",
+    "% for item in seq {# missing #}\n...% endfor",
+    "{% for i in (1, 2) %}{{ i }}{% endfor %}{% macro i() %}3{% endmacro %}{{ i() }}",
+    "{% if b %}{% set a = 42 %}{% endif %}{{ a }}",
+    "# for j in [1, 2]:\n#   set x = 1\n#   for i in [1, 2]:\n#     print x\n#     if i % 2 == 0:\n#       set x = x + 1\n#     endif\n#   endfor\n# endfor\n# if a\n#   print 'A'\n# elif b\n#   print 'B'\n# elif c == d\n#   print 'C'\n# else\n#   print 'D'\n# endif\n    ",
+    "\n            {% set x = 1 %}\n            {% for item in foo %}\n                {% if item == 1 %}\n                    {% set x = 2 %}\n                {% endif %}\n            {% endfor %}\n            {{ x }}\n        ",
+    "{% if %}....{% endif %}",
+    "{% if foo %}...{% elif %}...{% endif %}",
+    "{% for x in %}..{% endfor %}",
+    "\n            {% for p in foo recursive%}\n                {{p.bar}}\n                {% for f in p.fields recursive%}\n                    {{f.baz}}\n                    {{p.bar}}\n                    {% if f.rec %}\n                        {{ loop(f.sub) }}\n                    {% endif %}\n                {% endfor %}\n            {% endfor %}\n            ",
+    "\n            {% for p in foo%}\n                {{p.bar}}\n                {% for f in p.fields recursive%}\n                    {{f.baz}}\n                    {{p.bar}}\n                    {% if f.rec %}\n                        {{ loop(f.sub) }}\n                    {% endif %}\n                {% endfor %}\n            {% endfor %}\n            ",
+    "\n            {% for x in y %}\n                {{ loop.index0 }}\n            {% else %}\n                {% for i in range(3) %}{{ i }}{% endfor %}\n            {% endfor %}\n        ",
+    "{{ callableclass() }}",
+    "{% extends \"main\" %}{% set x %}42{% endset %}",
+    "{% for x in y %}{{ loop.index0 }}{% else %}{% for i in range(3) %}{{ i }}{% endfor %}{% endfor %}",
+    "\n        {% set i = 1 %}\n        {% macro test() %}\n            {% for i in range(0, 10) %}{{ i }}{% endfor %}\n        {% endmacro %}{{ test() }}\n        ",
+    "\n        {% macro outer() %}\n            {% set i = 1 %}\n            {% macro test() %}\n                {% for i in range(0, 10) %}{{ i }}{% endfor %}\n            {% endmacro %}{{ test() }}\n        {% endmacro %}{{ outer() }}\n        ",
+    "\n        {% macro test(a, b, c=get_int()) -%}\n             {{ a + b + c }}\n        {%- endmacro %}\n        {{ test(1, 2) }}|{{ test(1, 2, 3) }}\n        ",
+    "\n        {% set n=[1,2,3,4,5] %}\n        {% for n in [[1,2,3], [3,4,5], [5,6,7]] %}\n\n        {% macro x(l) %}\n          {{ l.pop() }}\n          {% if l %}{{ x(l) }}{% endif %}\n        {% endmacro %}\n\n        {{ x(n) }}\n\n        {% endfor %}\n        ",
+    "{% for x in x.y %}{{ x }}{% endfor %}",
+    "{% for x in x.y %}{{ loop.index0 }}|{{ x }}{% endfor %}",
+    "{% for x in x.y recursive %}{{ x }}{% endfor %}",
+    "{% macro x(caller=none) %}[{% if caller %}{{ caller() }}{% endif %}]{% endmacro %}{{ x() }}{% call x() %}aha!{% endcall %}",
+    "{% macro x(caller=none) %}[{% if caller %}{{ caller() }}{% endif %}]{% endmacro %}",
+    "{% macro x() %}{% block foo %}x{% endblock %}{% endmacro %}{{ x() }}",
+    "{% set x = 1 %}{% with x = 2 %}{% block y scoped %}{{ x }}{% endblock %}{% endwith %}",
+    "{% if foo %}{% else %}42{% endif %}",
+    "{% if object1.subproperty1 is eq object2.subproperty2 %}42{% endif %}",
+    "{%- for value in values recursive %}1{% else %}0{% endfor -%}",
+    "Start\n{% for i in [\"foo\", \"bar\"] -%}\n{% block body scoped -%}\n{{ loop.index }}) {{ i }}{% if loop.last %} last{% endif -%}\n{%- endblock %}\n{% endfor -%}\nEnd",
+    "{% set i = 42 %}\n{%- for idx in range(2) -%}\n{{ i }}{{ j }}\n{% set i = idx -%}\n{%- set j = loop.index -%}\n{{ test() }}\n{{ i }}{{ j }}\n{% endfor -%}\n{{ i }}{{ j }}",
+    "{% set i = 42 %}\n{%- for idx in range(2) -%}\n{{ i }}\n{%- set i = loop.index0 -%}\n{% block body scoped %}\n{{ test() }}\n{% endblock -%}\n{% endfor -%}\n{{ i }}",
+    "{%- set i = 42 -%}\n{{ i }}\n{% block body -%}\n{% set i = 24 -%}\n{{ test() }}\n{% endblock -%}\n{{ i }}",
+    "{%- set i = 42 -%}\n{% for idx in range(2) -%}\n{{ test() }}\n{%- set i = idx -%}\n{% block body scoped %}\n{{ test() }}\n{% set i = 24 -%}\n{{ test() }}\n{% endblock -%}\n{{ test() }}\n{% endfor -%}\n{{ test() }}",
+    "{% set output %}{% for x in [1,2,3] %}hello{% endfor %}{% endset %}{{ output }}",
+    "{% for x in ['one', 'foo'] | select('foo') %}{{ x }}{% endfor %}",
+    "{% macro x(caller) %}[{% if caller %}{{ caller() }}{% endif %}]{% endmacro %}",
+    "{{ foobar }}",
+    "{% extends \"base\" %}",
+    "{{ 'test'|testing(some='stuff') }}",
+    "(({% block title %}{% endblock %}))",
+    "{% block body %}[{{ x }}]{% endblock %}",
+    "\n                {%- set foo = 'bar' -%}\n                {% include 'x.html' -%}\n            ",
+    "\n                {%- set foo = 'bar' -%}\n                {% block test %}{% include 'x.html' %}{% endblock -%}\n                ",
+    "\n                {%- set foo = 'bar' -%}\n                {% block test %}{% set foo = foo\n                    %}{% include 'x.html' %}{% endblock -%}\n            ",
+    "{{ foo }}|{{ test }}",
+    "{{ var }}",
+    "{% include \"include.html\" %}",
+    "{% extends \"base.html\" %}{% set var = 42 %}",
+    "{% set foo = \"foo\" %}{{ foo }}{% include \"inc\" %}",
+    "{{ i }}",
+    "{% for i in [1, 2, 3] %}{% include \"inc\" %}{% endfor %}",
+    "{{ x }} {{ y }}",
+    "[{% for i in lst|reverse %}(len={{ loop.length }}, revindex={{ loop.revindex }}, index={{ loop.index }}, val={{ i }}){% endfor %}]",
+    "[{% for i in lst|reverse %}(len={{ loop.length }}, revindex0={{ loop.revindex0 }}, index0={{ loop.index0 }}, val={{ i }}){% endfor %}]",
+    "{% for _, g in gs %}{{ loop.index }} {{ g|list }}\n{% endfor %}",
+    "{{ calc() }}",
+    "{% for item.attribute in seq %}...{% endfor %}",
+    "{% for foo, bar.baz in seq %}...{% endfor %}",
+    "{% macro say_hello(name) %}<p>Hello {{ name }}!</p>{% endmacro %}{{ say_hello(\"<blink>foo</blink>\") }}",
+    "{{ cls|attr(\"__subclasses__\")() }}",
+    "{{ \"a{0.__class__}b\".format(42) }}",
+    "{{ \"a{0.foo}b\".format({\"foo\": 42}) }}",
+    "{{ (\"a{0.__class__}b{1}\"|safe).format(42, \"<foo>\") }}",
+    "{{ (\"a{0.foo}b{1}\"|safe).format({\"foo\": 42}, \"<foo>\") }}",
+    "{{ (\"a{}b{}\").format(\"foo\", \"42\")}}",
+    "{{ (\"a{}b{}\"|safe).format(42, \"<foo>\") }}",
+    "{{ \"a{x.__class__}b\".format_map({\"x\":42}) }}",
+    "{{ \"a{x.foo}b\".format_map({\"x\":{\"foo\": 42}}) }}",
+    "{{ (\"a{x.foo}b{y}\"|safe).format_map({\"x\":{\"foo\": 42}, \"y\":\"<foo>\"}) }}",
+    "{% set\n                ns = namespace(run=\"{0.__call__.__builtins__[__import__]}\".format)\n            %}\n            {{ ns | run(not_here) }}\n            ",
+    "{{ \"{0.__call__.__builtins__[__import__]}\"\n                  | attr(\"format\")(not_here) }}",
+    "{{ foo.foo() }}",
+    "{{ foo._foo() }}",
+    "{{ foo.__class__.__subclasses__() }}",
+    "{{ [].append(23) }}",
+    "{{ [].clear() }}",
+    "{{ [1].pop() }}",
+    "{{ {1:2}.clear() }}",
+    "{{ foo.bar() }}",
+    "{{ foo.__class__ }}",
+    "{{ foo.func_code }}",
+    "{% if x is defined %}{{ x is f }}{% endif %}",
+    "{{ missing is defined }}|{{ true is defined }}",
+    "{{ 1 is even }}|{{ 2 is even }}",
+    "{{ 1 is odd }}|{{ 2 is odd }}",
+    "{{ \"foo\" is lower }}|{{ \"FOO\" is lower }}",
+    "{{ \"FOO\" is upper }}|{{ \"foo\" is upper }}",
+    "{{ foo is eq 12 }}|{{ foo is eq 0 }}|{{ foo is eq (3 * 4) }}|{{ bar is eq \"baz\" }}|{{ bar is eq \"zab\" }}|{{ bar is eq (\"ba\" + \"z\") }}|{{ bar is eq bar }}|{{ bar is eq foo }}",
+    "{{ foo is sameas false }}|{{ 0 is sameas false }}",
+    "{{ foo is sameas none }}",
+    "{{ x is escaped }}|{{ y is escaped }}",
+    "{{ 1 is greaterthan 0 }}|{{ 0 is greaterthan 1 }}",
+    "{{ 0 is lessthan 1 }}|{{ 1 is lessthan 0 }}",
+    "{{ 'us-west-1' is matching '(us-east-1|ap-northeast-1)' or 'stage' is matching '(dev|stage)' }}",
+    "{{ \"o\" is in \"foo\" }}|{{ \"foo\" is in \"foo\" }}|{{ \"b\" is in \"foo\" }}|{{ 1 is in ((1, 2)) }}|{{ 3 is in ((1, 2)) }}|{{ 1 is in [1, 2] }}|{{ 3 is in [1, 2] }}|{{ \"foo\" is in {\"foo\": 1}}}|{{ \"baz\" is in {\"bar\": 1}}}",
+    "{{ x is f }}",
+    "{{ 2 is ",
+]
